@@ -8,7 +8,9 @@
      metadataBuffer.alloc ... MarshalToSizedBufferVT           -- one listing record (before the validators)
      metaOnly := !r.metadataOnly(path, stat)                   -- [sel s] = true: transferred in full
      if !metaOnly && fileCanRequestData(mode) { r.files[path] = i };  i++
-     orderValidator / hlValidator .HandleChange                -- both see every entry
+     orderValidator.HandleChange                               -- sees every entry
+     if !metaOnly { hlValidator.HandleChange }                 -- only entries that reach the disk can be
+                                                                  the source of a hard link that does
      pop metadataParents until its top is the parent of path
      metaOnly:  push if a directory;  continue                 -- nothing reaches the walker
      else:      w.update of every pending parent (bottom first), clear;  w.update(cp)
@@ -31,17 +33,33 @@ Open Scope bool_scope.
 Definition listing_name : bytes := MetaOnly.listing_name.
 Definition is_listing (s : stat) : bool := bytes_eqb (st_path s) listing_name.
 
+(* [m_vstk]: the order validator, which sees every entry.  The hard-link validator sees the
+   entries handed to the walker only: its state is [r_seen] of [m_st] (pending parents are
+   directories, which it ignores).  [r_vstk] of [m_st] is GHOST state in a metadata transfer:
+   nothing reads it (recv_stat, its only reader, is not used here); it holds what the order
+   validator would hold had it seen only the entries handed to the walker ([ghost_step]),
+   which is what the containment proof talks about. *)
 Record mstate := {
   m_st : rstate;
+  m_vstk : list ventry;    (* orderValidator *)
   m_stk : list stat;       (* metadataParents, top first *)
   m_buf : list stat        (* records of the metadata buffer, last first *)
 }.
 
-Definition mset (m : mstate) (st : rstate) : mstate := {| m_st := st; m_stk := m_stk m; m_buf := m_buf m |}.
+Definition mset (m : mstate) (st : rstate) : mstate :=
+  {| m_st := st; m_vstk := m_vstk m; m_stk := m_stk m; m_buf := m_buf m |}.
 
-(* the diff consumes the entries the receive loop queued for it *)
+Definition ghost_step (x : stat) (st : rstate) : rstate :=
+  set_valid st (match vstep (r_vstk st) (item_of x) with Some v => v | None => r_vstk st end)
+            (match hl_step (r_seen st) x with Some sn => sn | None => r_seen st end)
+            (r_files st) (r_next st).
+
+(* the diff consumes the entries the receive loop queued for it, and stops at the first error *)
+Definition feed_one (c : ctx) (idx : nat) (x : stat) (st : rstate) : rstate :=
+  let st1 := ghost_step x st in
+  if live st1 then diff_feed c idx x (r_old st1) st1 else st1.
 Definition feed_all (c : ctx) (idx : nat) (l : list stat) (st : rstate) : rstate :=
-  fold_left (fun st s => if live st then diff_feed c idx s (r_old st) st else st) l st.
+  fold_left (fun st x => feed_one c idx x st) l st.
 
 Definition mrecv_stat (c : ctx) (sel : stat -> bool) (idx : nat) (s : stat) (m : mstate) : mstate :=
   let st := m_st m in
@@ -51,23 +69,21 @@ Definition mrecv_stat (c : ctx) (sel : stat -> bool) (idx : nat) (s : stat) (m :
     let fwd := sel s in
     let files := if fwd && mode_is_regular (st_mode s) then bset (st_path s) (r_next st) (r_files st) else r_files st in
     let st0 := set_valid st (r_vstk st) (r_seen st) files (r_next st + 1) in
-    match vstep (r_vstk st) (item_of s) with
-    | None => {| m_st := set_out st0 (Failed idx); m_stk := m_stk m; m_buf := buf |}
+    match vstep (m_vstk m) (item_of s) with
+    | None => {| m_st := set_out st0 (Failed idx); m_vstk := m_vstk m; m_stk := m_stk m; m_buf := buf |}
     | Some v' =>
-      match hl_step (r_seen st) s with
-      | None => {| m_st := set_out (set_valid st0 v' (r_seen st) files (r_next st + 1)) (Failed idx);
-                   m_stk := m_stk m; m_buf := buf |}
-      | Some seen' =>
-        let st1 := set_valid st0 v' seen' files (r_next st + 1) in
-        let stk1 := MetaOnly.mpop (dir (st_path s)) (m_stk m) in
-        if fwd then
-          {| m_st := if is_dead st1 && negb (r_closed st1) then set_out st1 (Failed idx)   (* "walker is closed" *)
-                     else if r_closed st1 then set_out st1 (Panicked idx)                (* send on the closed channel *)
-                     else feed_all c idx (rev stk1 ++ [s]) st1;
-             m_stk := []; m_buf := buf |}
-        else
-          {| m_st := st1; m_stk := if st_is_dir s then s :: stk1 else stk1; m_buf := buf |}
-      end
+      let stk1 := MetaOnly.mpop (dir (st_path s)) (m_stk m) in
+      if fwd then
+        match hl_step (r_seen st) s with
+        | None => {| m_st := set_out st0 (Failed idx); m_vstk := v'; m_stk := m_stk m; m_buf := buf |}
+        | Some _ =>
+          {| m_st := if is_dead st0 && negb (r_closed st0) then set_out st0 (Failed idx)   (* "walker is closed" *)
+                     else if r_closed st0 then set_out st0 (Panicked idx)                (* send on the closed channel *)
+                     else feed_all c idx (rev stk1 ++ [s]) st0;
+             m_vstk := v'; m_stk := []; m_buf := buf |}
+        end
+      else
+        {| m_st := st0; m_vstk := v'; m_stk := if st_is_dir s then s :: stk1 else stk1; m_buf := buf |}
     end.
 
 Definition mrecv_packet (c : ctx) (dl : bool) (sel : stat -> bool) (idx : nat) (pk : packet) (m : mstate) : mstate :=
@@ -117,7 +133,8 @@ Definition recv_run_opt (f : fs) (root d0 : N) (dl merge : bool) (mo : option (s
   | None => recv_run f root d0 dl merge tmps pks budget
   | Some sel =>
     let c := {| c_root := root; c_cwd := d0 |} in
-    let m := mrecv_loop c dl sel 0 pks {| m_st := rstate_init f d0 merge tmps budget; m_stk := []; m_buf := [] |} in
+    let m := mrecv_loop c dl sel 0 pks {| m_st := rstate_init f d0 merge tmps budget; m_vstk := vinit;
+                                          m_stk := []; m_buf := [] |} in
     epilogue c (length pks) (listing_bytes (m_buf m)) (m_st m)
   end.
 
